@@ -28,7 +28,7 @@
    `ast` the same way -- and, as everywhere, that the two models follow the code. *)
 From Coq Require Import String List Bool ZArith Arith.
 From Bardic Require Import PyStr Value Compiled Engine EngineBase EngineNav EngineUndo EngineParams.
-From Bardic Require Import EngineHooks EngineCheck GraphProofs StoryWfChoose ParseBase ParseLine ParseMain CallBindProofs.
+From Bardic Require Import EngineHooks EngineCheck GraphProofs StoryWfChoose ParseBase ParseLine ParseMain ParseAllProofs CallBindProofs CallBindReal.
 Import ListNotations.
 
 (* the parameter scope ends when the navigation completes OR fails: the scope stack after any operation is
@@ -553,3 +553,77 @@ Example ex_history_plays :
   [(ObsOk, "hi" ++ ex_nl); (ObsOk, "2" ++ ex_nl ++ ex_nl ++ ex_nl ++ "hi" ++ ex_nl);
    (ObsOk, "5" ++ ex_nl ++ ex_nl ++ ex_nl ++ "hi" ++ ex_nl)].
 Proof. vm_compute. reflexivity. Qed.
+
+(* ------------------------------------------------------------------------------------------- *)
+(* FULL for the real block parser (Proofs/CallBindReal.v): story_specs_roundtrip is a THEOREM of parse_real --
+   every jump token and every choice the real extractors return, at any depth, went through
+   extract_target_and_args, whose cut is the cut the engine's own parenthesis scan makes -- so the three
+   `_partial` statements above hold for every compiled story without that hypothesis. *)
+Theorem compiled_specs_roundtrip : forall pp is_call lines story,
+  parse_real pp is_call lines = POk story -> story_specs_roundtrip story.
+Proof. exact real_story_specs_roundtrip. Qed.
+Print Assumptions compiled_specs_roundtrip.
+
+Theorem compiled_step_never_binds_structurally : forall pp is_call lines story,
+  parse_real pp is_call lines = POk story ->
+  forall orc ctxkeys, shape_agrees pp orc -> blank_shape pp ->
+  forall dup missing e o, reach orc ctxkeys story e -> op_valid orc story o ->
+    step_b orc ctxkeys story dup missing e o = step orc ctxkeys story e o.
+Proof. exact real_step_never_binds_structurally. Qed.
+Print Assumptions compiled_step_never_binds_structurally.
+
+Theorem compiled_played_never_binds_structurally : forall pp is_call lines story,
+  parse_real pp is_call lines = POk story ->
+  forall orc ctxkeys, shape_agrees pp orc -> blank_shape pp ->
+  forall dup missing e slot o, played orc ctxkeys story e slot -> op_valid orc story o ->
+    step_b orc ctxkeys story dup missing e o = step orc ctxkeys story e o.
+Proof. exact real_played_never_binds_structurally. Qed.
+Print Assumptions compiled_played_never_binds_structurally.
+
+Theorem compiled_run_never_binds_structurally : forall pp is_call lines story,
+  parse_real pp is_call lines = POk story ->
+  forall orc ctxkeys, shape_agrees pp orc -> blank_shape pp ->
+  forall dup missing v0 ops, Forall (op_valid orc story) ops ->
+    run_all_b orc ctxkeys story dup missing v0 ops = run_all orc ctxkeys story v0 ops.
+Proof. exact real_run_never_binds_structurally. Qed.
+Print Assumptions compiled_run_never_binds_structurally.
+
+Theorem extractor_tokens_are_balanced : xs_bal real_extractors.
+Proof. exact real_extractors_bal. Qed.
+Print Assumptions extractor_tokens_are_balanced.
+
+Theorem balanced_extractor_tokens_needed :
+  exists story,
+    parse (mkPyparse (fun _ => true) (fun _ => Some (2, []))) (fun _ => true) bad_extractors
+          [":: Start"; "@if x:"; ":: T(a, b)"; "hi"] = POk story /\
+    ~ story_specs_roundtrip story.
+Proof. exact balanced_extractors_needed. Qed.
+Print Assumptions balanced_extractor_tokens_needed.
+
+(* non-vacuity *)
+Definition ex_block_lines : list string :=
+  [":: Start"; "hi"; "@if go:"; "  + [In if] -> T(1)"; "  -> T(1, 2)"; "@endif";
+   "@for i in items:"; "  + [In for] -> T(1, q=5)"; "  @if i:"; "    -> T(q=5, p=1)"; "  @endif"; "@endfor"; "";
+   ":: T(p, q=p + 1)"; "{q}"; "-> Start"].
+Definition ex_block_story : story :=
+  match parse_real ex_pp (fun _ => true) ex_block_lines with POk s => s | _ => mkStory "" [] [] [] end.
+Example ex_block_story_compiles : parse_real ex_pp (fun _ => true) ex_block_lines = POk ex_block_story.
+Proof. vm_compute. reflexivity. Qed.
+Example ex_block_story_sites :
+  match get_passage ex_block_story "Start" with
+  | Some p => content_jumps (content p) = [("T", "1, 2"); ("T", "q=5, p=1")] /\
+              map (fun ck => (ch_target (fst ck), ch_args (fst ck))) (content_choices (content p)) =
+                [("T", "1"); ("T", "1, q=5")]
+  | None => False
+  end.
+Proof. vm_compute. split; reflexivity. Qed.
+Example ex_block_history_never_binds_structurally : forall dup missing ops,
+  Forall (op_valid ex_orc ex_block_story) ops ->
+  run_all_b ex_orc [] ex_block_story dup missing [] ops = run_all ex_orc [] ex_block_story [] ops.
+Proof.
+  intros dup missing ops H.
+  exact (compiled_run_never_binds_structurally _ _ _ _ ex_block_story_compiles ex_orc []
+           (proj1 ex_oracles_agree) (proj2 ex_oracles_agree) dup missing [] ops H).
+Qed.
+Eval vm_compute in (match get_passage ex_block_story "Start" with Some p => content p | None => [] end).
+
